@@ -28,7 +28,7 @@ theorem src_vertex_normals_real (sqrt : Rat → Rat) (pts : List V3) (ts : List 
     (hc : SqrtOn sqrt (meshFaceNormalsRaw pts ts))
     (hc' : SqrtOn sqrt (vertexNormalSumsCoded pts.length ts
       (faceNormals ((meshFaceNormalsRaw pts ts).map (fun n => sqrt (V3.normSq n))) pts ts))) :
-    ∃ vn : List V3, genVertexNormals sqrt (gm3 pts ts cs tc) = .ok (vn.map V3.toList) ∧
+    ∃ vn : List V3, genVertexNormals sqrt .float (gm3 pts ts cs tc) = .ok (vn.map V3.toList) ∧
       vn.map castV = vertexNormalsR pts ts := by
   refine ⟨vertexNormals ((meshFaceNormalsRaw pts ts).map (fun n => sqrt (V3.normSq n)))
     ((vertexNormalSumsCoded pts.length ts
